@@ -211,6 +211,17 @@ namespace {
   }
 
   const std::set<int> LOG10 = {8};
+  /*!
+   * log10 on the path is only skipped while C14.log10.derivative is a known finding; the state is
+   * recorded as a draw so that a replay (which never sees the known list) behaves identically
+   */
+  bool skipLog10(verif::Case& c) {
+    if (c.mode() == verif::Case::GENERATE) {
+      const int v = verif::Global::get().known_keys.count("C14.log10.derivative") ? 1 : 0;
+      return c.integer(v, v, "C14.log10.derivative") == 1;
+    }
+    return c.integer(0, 1, "C14.log10.derivative") == 1;
+  }
 
 }  // namespace
 
@@ -237,10 +248,14 @@ VERIF_SUB(first) {
   if (nest < 0) c.tag("independent_variable");
   if (nest >= 4) c.tag("nesting>=4");
   c.note(f.text + "  d/d" + f.names[k]);
+  const bool skip10 = skipLog10(c);
   if (east::funOnPath(*f.root, k, LOG10)) {
-    // known finding C14.log10.derivative: exactly this class is skipped (and counted)
-    c.tag("excluded_known.log10_on_path");
-    return;
+    if (skip10) {
+      // known finding C14.log10.derivative: exactly this class is skipped (and counted)
+      c.tag("excluded_known.log10_on_path");
+      return;
+    }
+    c.tag("class.log10_on_path");
   }
   E ref;
   try {
@@ -311,9 +326,13 @@ VERIF_SUB_W(second, 0.5) {
   c.nontrivial(east::nestingOf(*f.root, k) >= 2 && east::nestingOf(*f.root, l) >= 2);
   if (k != l) c.tag("mixed");
   c.note(f.text + "  d2/d" + f.names[k] + "d" + f.names[l]);
+  const bool skip10 = skipLog10(c);
   if (east::funOnPath(*f.root, k, LOG10) || east::funOnPath(*f.root, l, LOG10)) {
-    c.tag("excluded_known.log10_on_path");
-    return;
+    if (skip10) {
+      c.tag("excluded_known.log10_on_path");
+      return;
+    }
+    c.tag("class.log10_on_path");
   }
   E ref;
   try {
